@@ -47,7 +47,12 @@ def gen_value(rng, kind, name, k):
             v = dy(rng) if rng.random() < 0.85 else rng.choice([0.0, 1.0, -1.0])
         return hx(v), torch.tensor(v, dtype=t64)
     if kind == "zint":
-        v = rng.randint(1, 9) if name in ("size", "recordsz") else rng.randint(-12, 20)
+        if name in ("stride", "dilation", "kernel"):
+            v = rng.randint(1, 4)
+        elif name == "padding":
+            v = rng.randint(0, 3)
+        else:
+            v = rng.randint(1, 9) if name in ("size", "recordsz") else rng.randint(-12, 20)
         return str(v), v
     if kind == "bool":
         b = rng.random() < 0.5
